@@ -133,6 +133,11 @@ impl Ctx {
                         _ => Err(format!("iter() on {} which is not a ManuallyDrop'd argument", v)),
                     }
                 }
+                // an argument (any sequence) iterated by value
+                "into_iter" if m.args.is_empty() => match self.arg_index(&m.receiver) {
+                    Some(a) => Ok(vec![Src::OwnedSeq(a)]),
+                    None => Err("into_iter() of something that is not an argument".into()),
+                },
                 "enumerate" if m.args.is_empty() => {
                     let inner = self.chain(&m.receiver)?;
                     let mut v = vec![Src::Enumerate];
@@ -248,6 +253,19 @@ impl Ctx {
     }
 
     fn closure(&self, e: &Expr, srcs: &[Src], fold_acc: bool) -> R<(Vec<String>, Vec<String>, Option<String>)> {
+        // the caller's function handed to the adaptor as it is: `.map(f)` is `.map(|item| f(item))`,
+        // `.fold(init, f)` is `.fold(init, |acc, item| f(acc, item))`
+        if ident_of(e).as_deref() == Some(self.fname.as_str()) {
+            if srcs.len() != 1 {
+                return Err("the caller's function passed directly over a zipped chain".into());
+            }
+            let item = "item".to_string();
+            return Ok(if fold_acc {
+                (vec![item], vec!["CRet (XCallF [AVar \"acc\"; AVar \"item\"])".to_string()], Some("acc".to_string()))
+            } else {
+                (vec![item], vec!["CRet (XCallF [AVar \"item\"])".to_string()], None)
+            });
+        }
         let c = match strip(e) {
             Expr::Closure(c) => c,
             _ => return Err("expected a closure".into()),
@@ -920,6 +938,71 @@ pub fn gen_pipe(files: &BTreeMap<String, syn::File>, out: &mut String) {
         match res {
             Ok((t, _)) => writeln!(out, "Definition gen_default_inverted_zip : fnprog :=\n  {}.\n", t).unwrap(),
             Err(e) => println!("ERROR GenPipe.v default_inverted_zip: {}", e),
+        }
+    }
+    // the other trait defaults: GenericSequence::inverted_zip2 (src/sequence.rs), FunctionalSequence::map / fold
+    // (src/functional.rs) -- what `&GenericArray`, `&mut GenericArray` and every other sequence run
+    for (name, file, trname, func) in [
+        ("default_inverted_zip2", "sequence.rs", "GenericSequence", "inverted_zip2"),
+        ("default_map", "functional.rs", "FunctionalSequence", "map"),
+        ("default_fold", "functional.rs", "FunctionalSequence", "fold"),
+    ] {
+        let res: R<(String, (String, String))> = (|| {
+            let f = files.get(file).ok_or("file missing")?;
+            let tr = f
+                .items
+                .iter()
+                .find_map(|it| if let Item::Trait(t) = it { if t.ident == trname { Some(t) } else { None } } else { None })
+                .ok_or("trait not found")?;
+            let m = tr
+                .items
+                .iter()
+                .find_map(|ti| if let syn::TraitItem::Fn(m) = ti { if m.sig.ident == func { Some(m) } else { None } } else { None })
+                .ok_or("default method not found")?;
+            let body = m.default.as_ref().ok_or("no default body")?;
+            let fake = syn::ImplItemFn { attrs: vec![], vis: syn::Visibility::Inherited, defaultness: None, sig: m.sig.clone(), block: body.clone() };
+            translate(&fake, "T")
+        })();
+        match res {
+            Ok((t, _)) => writeln!(out, "Definition gen_{} : fnprog :=\n  {}.\n", name, t).unwrap(),
+            Err(e) => println!("ERROR GenPipe.v {}: {}", name, e),
+        }
+    }
+    // zip is a delegation in both places: (file, receiver, method, arguments) of the single call in its body
+    {
+        let res: R<Vec<String>> = (|| {
+            let mut rows = vec![];
+            let lib = files.get("lib.rs").ok_or("lib.rs missing")?;
+            let fun = find_fn(lib, "FunctionalSequence", is_ga, "zip")?;
+            rows.push(("lib.rs", fun.block.clone()));
+            let fu = files.get("functional.rs").ok_or("functional.rs missing")?;
+            let tr = fu
+                .items
+                .iter()
+                .find_map(|it| if let Item::Trait(t) = it { if t.ident == "FunctionalSequence" { Some(t) } else { None } } else { None })
+                .ok_or("trait FunctionalSequence not found")?;
+            let m = tr
+                .items
+                .iter()
+                .find_map(|ti| if let syn::TraitItem::Fn(m) = ti { if m.sig.ident == "zip" { Some(m) } else { None } } else { None })
+                .ok_or("default zip not found")?;
+            rows.push(("functional.rs", m.default.clone().ok_or("zip has no default body")?));
+            let mut out = vec![];
+            for (file, b) in rows {
+                if b.stmts.len() != 1 {
+                    return Err(format!("{}: zip is not a single call", file));
+                }
+                let Stmt::Expr(e, None) = &b.stmts[0] else { return Err(format!("{}: zip is not a single call", file)) };
+                let Expr::MethodCall(m) = strip(e) else { return Err(format!("{}: zip is not a method call", file)) };
+                let recv = ident_of(&m.receiver).ok_or("receiver")?;
+                let args: Vec<String> = m.args.iter().map(|a| ident_of(a).unwrap_or_else(|| "?".into())).collect();
+                out.push(format!("(\"{}\", \"{}\", \"{}\", [{}])", file, recv, m.method, args.iter().map(|a| format!("\"{}\"", a)).collect::<Vec<_>>().join("; ")));
+            }
+            Ok(out)
+        })();
+        match res {
+            Ok(rows) => writeln!(out, "(* zip(self, rhs, f): the single call its body consists of, in GenericArray's impl and in the trait default *)\nDefinition gen_zip_delegations : list (string * string * string * list string) :=\n  [{}].\n", rows.join("; ")).unwrap(),
+            Err(e) => println!("ERROR GenPipe.v zip_delegations: {}", e),
         }
     }
     let is_iter = |t: &syn::Type| matches!(t, syn::Type::Path(p) if p.path.segments.last().map(|s| s.ident == "GenericArrayIter").unwrap_or(false));
